@@ -162,6 +162,7 @@ fn fs_call(kind: Option<&'static str>, f: impl FnOnce() -> c_int) -> c_int {
 pub unsafe extern "C" fn rename(old: *const c_char, new: *const c_char) -> c_int {
     static R: AtomicUsize = AtomicUsize::new(0);
     let f: extern "C" fn(*const c_char, *const c_char) -> c_int = unsafe { std::mem::transmute(real(b"rename\0", &R)) };
+    if FAULT_ON.load(Ordering::Relaxed) != 0 && plan_hit("rename", path_class(cbytes(old))) { return eio(); }
     let kind = if under(new, 0) { Some("rename:staging") } else if under(old, 0) { Some("rename:cas") } else { None };
     fs_call(kind, || f(old, new))
 }
@@ -170,6 +171,7 @@ pub unsafe extern "C" fn rename(old: *const c_char, new: *const c_char) -> c_int
 pub unsafe extern "C" fn unlink(p: *const c_char) -> c_int {
     static R: AtomicUsize = AtomicUsize::new(0);
     let f: extern "C" fn(*const c_char) -> c_int = unsafe { std::mem::transmute(real(b"unlink\0", &R)) };
+    if FAULT_ON.load(Ordering::Relaxed) != 0 && plan_hit("unlink", path_class(cbytes(p))) { return eio(); }
     let kind = if under(p, 0) { Some("unlink:cas") } else if under(p, 1) { Some("unlink:staging") } else { None };
     fs_call(kind, || f(p))
 }
@@ -180,9 +182,104 @@ pub unsafe extern "C" fn open64(p: *const c_char, flags: c_int, mode: c_uint) ->
     let f: extern "C" fn(*const c_char, c_int, c_uint) -> c_int = unsafe { std::mem::transmute(real(b"open64\0", &R)) };
     const O_ACCMODE: c_int = 3;
     const O_DIRECTORY: c_int = 0o200000;
+    if FAULT_ON.load(Ordering::Relaxed) != 0 && (flags & O_DIRECTORY) == 0 && plan_hit("open", path_class(cbytes(p))) { return eio(); }
     let kind = if under(p, 0) && (flags & O_ACCMODE) == 0 && (flags & O_DIRECTORY) == 0 { Some("open:cas") } else { None };
     fs_call(kind, || f(p, flags, mode))
 }
+
+
+// ---- sequential fault plans (C14): fail the n-th call of one kind inside the window, through the same layer
+#[cfg(test)]
+struct FaultPlan {
+    active: bool,
+    kind: String,       // e.g. "unlink:cas", "write:wal", "sync:staging", "rename:index.tmp"
+    nth: usize,         // 1-based ordinal among calls of that kind inside the window
+    seen: usize,
+    fired: bool,
+    log: Vec<String>,
+}
+#[cfg(test)]
+static FAULT: StdMutex<Option<FaultPlan>> = StdMutex::new(None);
+#[cfg(test)]
+static DBROOT: StdMutex<Vec<u8>> = StdMutex::new(Vec::new());
+
+/// class of a path inside the database directory: cas / staging / wal / index.tmp / index / settings / lock
+#[cfg(test)]
+fn path_class(b: &[u8]) -> Option<&'static str> {
+    let root = DBROOT.lock().unwrap_or_else(|e| e.into_inner());
+    if root.is_empty() || !b.starts_with(&root) { return None; }
+    let rel = &b[root.len()..];
+    let rel = if rel.first() == Some(&b'/') { &rel[1..] } else { rel };
+    if rel.starts_with(b"cas/") || rel == b"cas" { Some("cas") }
+    else if rel.starts_with(b"staging/") { Some("staging") }
+    else if rel.ends_with(b"_index.wal") { Some("wal") }
+    else if rel == b"index.tmp" { Some("index.tmp") }
+    else if rel == b"index" { Some("index") }
+    else if rel.starts_with(b"db_settings") { Some("settings") }
+    else { None }
+}
+#[cfg(test)]
+fn fd_class(fd: c_int) -> Option<&'static str> {
+    let link = format!("/proc/self/fd/{fd}\0");
+    let mut buf = [0u8; 4096];
+    let n = unsafe { readlink(link.as_ptr() as *const c_char, buf.as_mut_ptr() as *mut c_char, buf.len()) };
+    if n <= 0 { return None; }
+    let mut b = &buf[..n as usize];
+    if b.ends_with(b" (deleted)") { b = &b[..b.len() - 10]; }
+    path_class(b)
+}
+/// -> true if the fault plan says THIS call fails
+#[cfg(test)]
+fn plan_hit(op: &str, class: Option<&'static str>) -> bool {
+    let Some(c) = class else { return false };
+    let mut g = FAULT.lock().unwrap_or_else(|e| e.into_inner());
+    let Some(p) = g.as_mut() else { return false };
+    if !p.active { return false; }
+    let k = format!("{op}:{c}");
+    p.log.push(k.clone());
+    if k == p.kind {
+        p.seen += 1;
+        if p.seen == p.nth && !p.fired {
+            p.fired = true;
+            return true;
+        }
+    }
+    false
+}
+#[cfg(test)]
+fn eio() -> c_int { unsafe { *__errno_location() = 5 }; -1 }
+#[cfg(test)]
+fn cbytes<'a>(p: *const c_char) -> &'a [u8] { if p.is_null() { b"" } else { unsafe { CStr::from_ptr(p) }.to_bytes() } }
+
+#[cfg(test)]
+unsafe extern "C" { fn readlink(path: *const c_char, buf: *mut c_char, len: usize) -> isize; }
+
+#[cfg(test)]
+#[unsafe(no_mangle)]
+pub unsafe extern "C" fn write(fd: c_int, buf: *const c_void, n: usize) -> isize {
+    static R: AtomicUsize = AtomicUsize::new(0);
+    let f: extern "C" fn(c_int, *const c_void, usize) -> isize = unsafe { std::mem::transmute(real(b"write\0", &R)) };
+    if fd > 2 && FAULT_ON.load(Ordering::Relaxed) != 0 && plan_hit("write", fd_class(fd)) { return eio() as isize; }
+    f(fd, buf, n)
+}
+#[cfg(test)]
+#[unsafe(no_mangle)]
+pub unsafe extern "C" fn fdatasync(fd: c_int) -> c_int {
+    static R: AtomicUsize = AtomicUsize::new(0);
+    let f: extern "C" fn(c_int) -> c_int = unsafe { std::mem::transmute(real(b"fdatasync\0", &R)) };
+    if FAULT_ON.load(Ordering::Relaxed) != 0 && plan_hit("sync", fd_class(fd)) { return eio(); }
+    f(fd)
+}
+#[cfg(test)]
+#[unsafe(no_mangle)]
+pub unsafe extern "C" fn fsync(fd: c_int) -> c_int {
+    static R: AtomicUsize = AtomicUsize::new(0);
+    let f: extern "C" fn(c_int) -> c_int = unsafe { std::mem::transmute(real(b"fsync\0", &R)) };
+    if FAULT_ON.load(Ordering::Relaxed) != 0 && plan_hit("sync", fd_class(fd)) { return eio(); }
+    f(fd)
+}
+#[cfg(test)]
+static FAULT_ON: AtomicUsize = AtomicUsize::new(0);
 
 #[cfg(test)]
 fn content(id: i64) -> Vec<u8> {
@@ -366,5 +463,125 @@ fn replay_gated() {
     for f in &failures {
         println!("GATED-REPLAY: {f}");
     }
+    assert!(failures.is_empty(), "{}", failures.join("; "));
+}
+
+
+// A sequential history with ONE failed file-system call (C14): initial state, then the operations of the
+// counterexample through the public API while the n-th call of the witnessed kind fails with EIO, then the
+// property itself: every key of the live index readable, every key other than those of the failed operation
+// holds exactly its content, the failed operation's keys hold the old or the new value; the store reopens and
+// the same is true there.
+#[cfg(test)]
+#[test]
+fn replay_faultplan() {
+    let v = rv::load();
+    let ints = |n: &str| -> Vec<i64> { v[n].as_array().map(|a| a.iter().map(|x| x.as_i64().unwrap_or(0)).collect()).unwrap_or_default() };
+    let bools = |n: &str| -> Vec<bool> { v[n].as_array().map(|a| a.iter().map(|x| x.as_bool().unwrap_or(false)).collect()).unwrap_or_default() };
+    let keys = ints("keys");
+    let hashes = ints("hashes");
+    let pk = bools("pk");
+    let hk = ints("hk");
+    let orphans = bools("orphans");
+    let kinds: Vec<String> = v["kinds"].as_array().unwrap().iter().map(|x| x.as_str().unwrap().to_string()).collect();
+    let fkind = v["fault_kind"].as_str().unwrap_or("").to_string();
+    let fnth = v["fault_nth"].as_u64().unwrap_or(0) as usize;
+    let n_wal = v["num_ops_per_wal"].as_u64().unwrap_or(10_000);
+
+    let dir = tempfile::tempdir().unwrap();
+    let cfg = || Config { num_ops_per_wal: NonZeroU64::new(n_wal).unwrap(), scan_orphans_on_startup: false, ..Default::default() };
+    let cas: Cas<String> = Cas::open(dir.path(), cfg()).unwrap();
+    *DBROOT.lock().unwrap() = cas.paths.db_root_path().to_string_lossy().as_bytes().to_vec();
+    let mut model: std::collections::BTreeMap<String, i64> = std::collections::BTreeMap::new();
+    for i in 0..keys.len() {
+        if pk[i] {
+            let mut tx = cas.put(keyname(keys[i])).unwrap();
+            tx.write(&content(hk[i])).unwrap();
+            tx.finish().unwrap();
+            model.insert(keyname(keys[i]), hk[i]);
+        }
+    }
+    for (j, h) in hashes.iter().enumerate() {
+        if orphans.get(j).copied().unwrap_or(false) {
+            let c = content(*h);
+            let p = cas.paths.cas_file_path(&calculate_blob_hash(&c));
+            if !p.exists() {
+                std::fs::create_dir_all(p.parent().unwrap()).unwrap();
+                std::fs::write(&p, &c).unwrap();
+            }
+        }
+    }
+    *FAULT.lock().unwrap() = Some(FaultPlan { active: true, kind: fkind.clone(), nth: fnth, seen: 0, fired: false, log: Vec::new() });
+    FAULT_ON.store(1, Ordering::SeqCst);
+    // the window: the operations, one after the other
+    let mut uncertain: std::collections::BTreeMap<String, Vec<Option<i64>>> = std::collections::BTreeMap::new();
+    let mut results = Vec::new();
+    for (t, kind) in kinds.iter().enumerate() {
+        let key = keyname(v[format!("t{t}_key")].as_i64().unwrap_or(0));
+        let h = v[format!("t{t}_hash")].as_i64().unwrap_or(0);
+        let fired_before = FAULT.lock().unwrap().as_ref().map(|p| p.fired).unwrap_or(false);
+        let (okr, newval): (bool, Option<i64>) = match kind.as_str() {
+            "put" => {
+                let okp = match cas.put(key.clone()) {
+                    Ok(mut tx) => tx.write(&content(h)).is_ok() && tx.finish().is_ok(),
+                    Err(_) => false,
+                };
+                (okp, Some(h))
+            }
+            "remove" => (cas.remove(&key).is_ok(), None),
+            _ => (true, model.get(&key).copied()),
+        };
+        let fired_now = FAULT.lock().unwrap().as_ref().map(|p| p.fired).unwrap_or(false);
+        results.push(if okr { "ok" } else { "err" });
+        if okr && !(fired_now && !fired_before) {
+            match newval { Some(x) => { model.insert(key.clone(), x); } None => { model.remove(&key); } }
+            uncertain.remove(&key);
+        } else {
+            // the operation that met the fault (or failed): its key holds the old or the new value
+            let old = model.get(&key).copied();
+            uncertain.insert(key.clone(), vec![old, newval]);
+            if okr { match newval { Some(x) => { model.insert(key.clone(), x); } None => { model.remove(&key); } } }
+        }
+    }
+    FAULT_ON.store(0, Ordering::SeqCst);
+    let plan = FAULT.lock().unwrap().take().unwrap();
+    println!("GATED-REPLAY: fault plan `{}` #{}: fired={} results={:?} calls seen in the window: {}", fkind, fnth, plan.fired, results, plan.log.join(" "));
+    if !plan.fired {
+        println!("GATED-REPLAY: diverged: the real code never made call #{fnth} of kind `{fkind}` inside the window");
+        return;
+    }
+    let check = |cas: &Cas<String>, what: &str| -> Vec<String> {
+        let mut bad = Vec::new();
+        let ks: Vec<String> = { let st = cas.read_index_state(); st.iter().map(|(k, _)| k.clone()).collect() };
+        let mut got: std::collections::BTreeMap<String, Vec<u8>> = std::collections::BTreeMap::new();
+        for k in ks {
+            match cas.get(&k) {
+                Ok(Some(b)) => { got.insert(k, b.to_vec()); }
+                Ok(None) => {}
+                Err(e) => bad.push(format!("{what}: key {k:?} is in the index but cannot be read: {e}")),
+            }
+        }
+        let mut all: std::collections::BTreeSet<String> = model.keys().cloned().collect();
+        all.extend(got.keys().cloned());
+        all.extend(uncertain.keys().cloned());
+        for k in all {
+            let have = got.get(&k).cloned();
+            if let Some(opts) = uncertain.get(&k) {
+                if !opts.iter().any(|o| o.map(content) == have) && !bad.iter().any(|b| b.contains(&format!("{k:?}"))) {
+                    bad.push(format!("{what}: key {k:?} of the failed operation holds neither its old nor its new value"));
+                }
+            } else if model.get(&k).map(|h| content(*h)) != have && !bad.iter().any(|b| b.contains(&format!("{k:?}"))) {
+                bad.push(format!("{what}: key {k:?}, not touched by the failed operation, changed"));
+            }
+        }
+        bad
+    };
+    let mut failures = check(&cas, "live store after the fault");
+    drop(cas);
+    match Cas::<String>::open(dir.path(), cfg()) {
+        Ok(cas2) => failures.extend(check(&cas2, "after reopening")),
+        Err(e) => failures.push(format!("the store does not reopen after the contained fault: {e}")),
+    }
+    for f in &failures { println!("GATED-REPLAY: {f}"); }
     assert!(failures.is_empty(), "{}", failures.join("; "));
 }
